@@ -88,6 +88,7 @@ type WorkerReport struct {
 	Probes      []string          `json:"probes"`
 	ShrinkRuns  int               `json:"shrink_runs"`
 	Reruns      int               `json:"reruns"`           // scenarios re-executed at the end of the worker, out of their original order
+	MaxRealPts  int64             `json:"max_real_points"`  // most statements one scenario executed outside a simulation (budget: realBudget)
 	RerunDiffs  int               `json:"rerun_mismatches"` // ... whose event-log hash differed (state leaking between runs)
 }
 
@@ -300,15 +301,35 @@ func Main(t *testing.T, p Prop) {
 		}
 	}
 	rep.WallS = time.Since(start).Seconds()
+	rep.MaxRealPts = maxRealPoints
 	writeReport(out, rep, hashes, pairs)
 }
 
 // safeRun executes one scenario. The sequential harnesses call the code under test on their own goroutine, so a
 // panic of that code escapes p.Run: it is a finding about the code (reported as class "panic" with the value and the
 // stack), not trouble of the machinery. (Inside a simulation, task panics are collected by simrt and reported the same way.)
+// realBudget bounds the statements one scenario may execute outside a simulation (transformed code called directly by a
+// sequential harness); the largest count seen is reported as max_real_points.
+const realBudget = 20000000
+
+var maxRealPoints int64
+
 func safeRun(p Prop, t *testing.T, sc interface{}, keepLog bool) (o *Outcome) {
+	simrt.SetRealBudget(realBudget)
 	defer func() {
+		n := simrt.SetRealBudget(0)
+		if n > maxRealPoints {
+			maxRealPoints = n
+		}
 		if r := recover(); r != nil {
+			if ra, ok := r.(simrt.Runaway); ok {
+				sum := sha256.Sum256([]byte("runaway"))
+				o = &Outcome{Class: "step-budget", Msg: ra.Error(), LogHash: hex.EncodeToString(sum[:8]), Counts: map[string]int{}, Nontrivial: true}
+				if keepLog {
+					o.Log = []string{ra.Error()}
+				}
+				return
+			}
 			val := fmt.Sprint(r)
 			sum := sha256.Sum256([]byte("panic:" + val))
 			o = &Outcome{Class: "panic", Msg: "panic escaped the scenario: " + val, LogHash: hex.EncodeToString(sum[:8]),
@@ -453,6 +474,17 @@ func FromResult(res *simrt.Result) *Outcome {
 	o := &Outcome{LogHash: res.LogHash, Log: res.Log, Steps: res.Steps, Switches: res.Switches, Tasks: res.Tasks,
 		SimTimeNs: res.SimTimeNs, Counts: res.Counts, Pairs: res.Pairs}
 	o.Nontrivial = res.Tasks >= 2 && res.Switches >= 1
+	if o.Counts == nil {
+		o.Counts = map[string]int{}
+	}
+	switch {
+	case res.Points > 10000000:
+		o.Counts["runs-with-more-than-1e7-points"]++
+	case res.Points > 1000000:
+		o.Counts["runs-with-more-than-1e6-points"]++
+	case res.Points > 100000:
+		o.Counts["runs-with-more-than-1e5-points"]++
+	}
 	if len(res.Panics) > 0 {
 		// a panic inside a task is the root cause of whatever the oracles saw afterwards
 		o.Class, o.Msg = "panic", strings.Join(res.Panics, "; ")
